@@ -170,10 +170,27 @@ def snap(agent, with_sigma):
     s = agent.sigma_inv
     d = {"numel": int(agent.numel), "bound": bool(agent.exp_layer is lay),
          "shape": [int(x) for x in s.shape], "live": layer_desc(lay),
-         "sigma": None, "dtype": str(s.dtype)}
+         "sigma": None, "dtype": str(s.dtype), "lamb": float(agent.lamb)}
     if with_sigma and s.dim() == 2 and s.shape[0] <= NMAX and s.shape[1] <= NMAX:
         d["sigma"] = [[(float(x) if np.isfinite(x) else None) for x in row] for row in s.detach().cpu().double().numpy()]
     return d
+
+
+class ScriptedHP:
+    """Mutations.rl_hyperparam_mutation draws the hyperparameter with hp_config.sample(); the harness scripts that draw
+    (randomness is an input) so that `lamb` — a legal HyperparameterConfig entry — is the one that gets mutated."""
+
+    def __init__(self, name):
+        self.name = name
+
+    def __enter__(self):
+        self.orig = HyperparameterConfig.sample
+        name = self.name
+        HyperparameterConfig.sample = lambda cfg: (name, cfg[name])
+        return self
+
+    def __exit__(self, *exc):
+        HyperparameterConfig.sample = self.orig
 
 
 class ScriptedNodes:
@@ -371,11 +388,11 @@ def build_agent(case):
         if case.get("partial"):
             net_config = {"head_config": head}      # partial configuration: default encoder
     hp = HyperparameterConfig(lr=RLParameter(min=1e-4, max=1e-2), batch_size=RLParameter(min=4, max=32, dtype=int),
-                              learn_step=RLParameter(min=1, max=8, dtype=int))
+                              learn_step=RLParameter(min=1, max=8, dtype=int), lamb=RLParameter(min=0.1, max=4.0))
     lam, gamma = case["lam"], case["gamma"]
     if case.get("int_params"):                  # the constructor also accepts ints for lamb / gamma
         lam, gamma = int(lam), int(gamma)
-    kw = dict(hp_config=hp, gamma=gamma, lamb=lam, batch_size=8, lr=1e-3)
+    kw = dict(hp_config=hp, gamma=gamma, lamb=lam, batch_size=8, lr=float(case.get("lr", 1e-3)))
     if kind == "custom":                        # caller-provided network (make_safe_deepcopies path)
         from agilerl.networks.value_networks import ValueNetwork
         net = ValueNetwork(observation_space=obs_space, encoder_config={"hidden_size": list(case["enc"])}, head_config=head)
@@ -501,6 +518,26 @@ class C19(vlib.Driver):
         for _ in range(1 if tier == "quick" else 4):
             n_upd = 60 if tier == "quick" else 300
             cases.append(base(algo=rng.choice(["ucb", "ts"]), head=[2], lam=rng.choice([0.5, 2.0]), every=10, ops=[["act", None]] * n_upd))
+        # round 3: `lamb` is a legal HyperparameterConfig entry — RL-hyperparameter mutations that draw it (scripted draw), through
+        # Mutations.mutation, before / after / between decisions, then clone / reload; the matrix must be the inverse for the
+        # agent's CURRENT lambda
+        for algo_ in ("ucb", "ts"):
+            L_ = ["mut", "rl_hp_lamb", 0]
+            cases.append(base(algo=algo_, lam=rng.choice([0.5, 1.0, 2.0]),
+                              ops=[["act", None], ["act", [1, 0, 1]], L_, ["act", None], ["act", [0, 1, 1]], L_, L_, ["act", None],
+                                   ["clone"], ["act", None], ["reload", "load"], ["act", None]]))
+            cases.append(base(algo=algo_, lam=rng.choice([0.3, 3.0]), head=[rng.randint(1, 4)],
+                              ops=[L_, ["act", None], ["learn"], L_, ["learn"], ["act", None], ["mut", "param", 1], L_,
+                                   ["reload", "load_checkpoint"], ["act", None], ["mut", "none", 1], ["act", None]]))
+        # round 3: the IDENTICAL context matrix in consecutive decisions, with no / one / several learn steps (and a direct parameter
+        # mutation) in between: the features must be those of the CURRENT network (recomputed independently by autograd)
+        for algo_ in ("ucb", "ts"):
+            S_ = ["act", None, "same"]
+            cases.append(base(algo=algo_, lr=1e-2, lam=rng.choice([0.5, 2.0]), every=1,
+                              ops=[["act", None], S_, ["learn"], S_, ["learn"], ["learn"], ["learn"], S_, S_, ["direct", "param", 1], S_,
+                                   ["act", None], ["learn"], ["act", [1, 1, 0], "same"]]))
+            cases.append(base(algo=algo_, lr=1e-2, space="image" if algo_ == "ucb" else "dict", head=[2], every=1,
+                              ops=[["act", None], ["learn"], S_, ["learn"], S_]))
         # the real training loop (train_bandits) with and without tournament selection + mutation
         nloop = 6 if tier == "quick" else 20
         for i in range(nloop):
@@ -649,11 +686,17 @@ class C19(vlib.Driver):
         ckpt_dir = vlib.BUILD / ("C19" + vlib.ALT_TAG) / "ckpt"
         ckpt_dir.mkdir(parents=True, exist_ok=True)
         nops = len(case["ops"])
+        last_ctx = None
         for oi, op in enumerate(case["ops"]):
             rec = {"op": op[0]}
             try:
                 if op[0] == "act":
-                    ctx = make_ctx(case, rs)
+                    if len(op) > 2 and op[2] == "same" and last_ctx is not None:
+                        ctx = last_ctx             # the IDENTICAL context matrix as in the previous decision
+                        rec["same_ctx"] = True
+                    else:
+                        ctx = make_ctx(case, rs)
+                    last_ctx = ctx
                     mask = None if op[1] is None else np.array(op[1])
                     G = features(agent, ctx)
                     mu0 = net_out(agent, ctx)
@@ -676,6 +719,11 @@ class C19(vlib.Driver):
                     exp = {"obs": make_ctx(case, rs, rows=B, for_learn=True),
                            "reward": torch.as_tensor(rs.randint(0, 2, size=(B, 1)).astype(np.float32))}
                     rec["loss"] = float(agent.learn(exp))
+                elif op[0] == "mut" and op[1] == "rl_hp_lamb":
+                    m = make_mutations("rl_hp", case["seed"] + oi)
+                    with ScriptedHP("lamb"):
+                        agent = m.mutation([agent])[0]
+                    rec["mut"] = str(agent.mut)
                 elif op[0] == "mut":
                     m = make_mutations(op[1], case["seed"] + oi)
                     with ScriptedNodes(op[2]):
@@ -797,14 +845,23 @@ class C19(vlib.Driver):
         if any(x is None for rec in [obs["init"]] + obs["trace"] if rec["sigma"] for row in rec["sigma"] for x in row) or \
            any(not np.isfinite(x) for rec in obs["trace"] for row in rec.get("G", []) for x in row):
             return "false"      # NaN / inf in sigma_inv or in a feature: no rational model value can agree
+        lam_cur, prev = float(case["lam"]), obs["init"]
         for op, rec in zip(case["ops"], obs["trace"]):
+            lam_new = float(rec.get("lamb", lam_cur))
+            if lam_new != lam_cur:
+                # agent.lamb changed during this op (an RL-hyperparameter mutation drew `lamb`): a SetLam step of the model,
+                # observed through what cannot have changed yet (sizes, binding of the previous observation)
+                ops.append(f"SetLam {coq_Q(lam_new)}")
+                obl.append(self.q_obs(dict(prev, sigma=None, op="setlam")))
+                lam_cur = lam_new
+            prev = rec
             if rec["numel"] > NMAX or max(rec["shape"]) > 64:
                 # too large for exact arithmetic in Coq: compare sizes up to here only (oracle covers the rest)
-                if op_kind(op, rec, case["lam"]) == "hook":
+                if op_kind(op, rec, lam_cur) == "hook":
                     ops.append(f"MutHook {self.q_layer(rec['live'])}")
                     obl.append(self.q_obs(dict(rec, sigma=None)))
                 break
-            kind = op_kind(op, rec, case["lam"])
+            kind = op_kind(op, rec, lam_cur)
             if op[0] == "act":
                 a = rec["action"]
                 if not (0 <= a < len(rec["G"])):
@@ -896,6 +953,7 @@ class C19(vlib.Driver):
                 V("finite", f"{where}: sigma_inv contains NaN / inf entries")
                 return
             S = np.array(rec["sigma"], dtype=np.float64)
+            lam = L[0]
             scale = 1.0 / lam
             if np.max(np.abs(S - S.T)) > 1e-4 * scale:
                 V("symmetric", f"{where}: max |S - S^T| = {np.max(np.abs(S - S.T)):.3g}")
@@ -910,20 +968,29 @@ class C19(vlib.Driver):
                 self._max_err = max(getattr(self, "_max_err", 0.0), float(err))
                 if err > OTOL:
                     V("inverse", f"{where}: lambda * max |sigma_inv - inv(lambda I + sum g g^T)| = {err:.4g} (lambda={lam}, "
-                      f"{'freshly initialised' if fresh else 'after updates'}; sigma_inv[0][0]={S[0, 0]:.6g})",
-                      "init" if fresh else "update")
+                      f"{'freshly initialised' if fresh else 'after updates'}; sigma_inv[0][0]={S[0, 0]:.6g}"
+                      + ("; agent.lamb was changed by an RL-hyperparameter mutation and the matrix was not re-initialised since" if L[1] else "") + ")",
+                      "lambda-changed" if L[1] else ("init" if fresh else "update"))
 
         init = obs["init"]
         ok = check_size(init, "construction")
         if not init["bound"]:
             V("exp-layer-stale", "after construction exp_layer is not the network's output layer", "construction")
         n = init["shape"][0]
-        A = lam * np.eye(n)
+        L = [float(init.get("lamb", lam)), False]    # the agent's current lambda; was it changed without an initialisation since?
+        G = np.zeros((n, n))                          # sum of g g^T since the last initialisation (None: unknown after a resize)
+
+        def Acur():
+            return None if G is None else L[0] * np.eye(len(G)) + G
         if ok:
-            check_matrix(init, A, "construction", True)
+            check_matrix(init, Acur(), "construction", True)
         updates = 0
         for oi, (op, rec) in enumerate(zip(case["ops"], obs["trace"])):
             where = f"{op[0]} (op {oi})"
+            lam_new = float(rec.get("lamb", L[0]))
+            if lam_new != L[0]:
+                L[0], L[1] = lam_new, True
+            lam = L[0]
             if any(v.clause != "exp-layer-stale" for v in out):
                 break
             if not check_size(rec, where):
@@ -947,16 +1014,17 @@ class C19(vlib.Driver):
                             V("bonus", f"{where}: exploration bonus of arm {k} is {b}, expected gamma*sqrt(g S g^T) = {want} >= 0")
                             break
                 g = np.array(rec["G"][a], dtype=np.float64) if 0 <= a < len(rec["G"]) else None
-                if A is not None and g is not None and len(g) == len(A):
-                    A = A + np.outer(g, g)
+                if G is not None and g is not None and len(g) == len(G):
+                    G = G + np.outer(g, g)
                 updates += 1
-                check_matrix(rec, A, where, False)
+                check_matrix(rec, Acur(), where, False)
             elif op_kind(op, rec, lam) == "hook":
-                # the registered hook re-initialised the matrix
-                A = lam * np.eye(rec["shape"][0])
-                check_matrix(rec, A, where, True)
+                # the registered hook re-initialised the matrix (with the agent's current lambda)
+                G = np.zeros((rec["shape"][0], rec["shape"][0]))
+                L[1] = False
+                check_matrix(rec, Acur(), where, True)
             elif op[0] == "resize":
-                A = None
+                G = None
                 check_matrix(rec, None, where, False)
                 w_old = dict(map(tuple, rec["old"])).get(0, 0)
                 w_new = dict(map(tuple, rec["live"])).get(0, 0)
@@ -967,7 +1035,7 @@ class C19(vlib.Driver):
                           f"new diagonal entries {diag}, expected {1.0 / lam}",
                           "wrong-value" if all(d != 0 for d in diag) else "missing")
             else:
-                check_matrix(rec, A, where, False)
+                check_matrix(rec, Acur(), where, False)
                 if op[0] == "clone" and rec.get("alias"):
                     V("clone-alias", f"{where}: the clone's sigma_inv shares storage with the parent's")
                 if op[0] == "reload" and not rec.get("same_value", True):
@@ -1032,6 +1100,17 @@ class C19(vlib.Driver):
             return labs
         labs.append(f"numel0={obs['init']['numel']}")
         labs.append(f"space={case.get('space', 'vector')}")
+        lam_prev, learns_since = obs["init"].get("lamb"), None
+        for op, rec in zip(case["ops"], obs["trace"]):
+            if rec.get("lamb") != lam_prev:
+                labs.append("lambda-changed-by=" + op[0] + ":" + str(op[1] if len(op) > 1 else ""))
+                lam_prev = rec.get("lamb")
+            if op[0] == "act":
+                if rec.get("same_ctx"):
+                    labs.append("same-context-after-learns=" + str(min(learns_since or 0, 3)))
+                learns_since = 0
+            elif op[0] == "learn" and learns_since is not None:
+                learns_since += 1
         for op, rec in zip(case["ops"], obs["trace"]):
             if op[0] in ("mut", "archm", "direct"):
                 labs.append("mutation-effect=" + op_kind(op, rec, case["lam"]) + ("-resized" if rec.get("mut") and False else ""))
